@@ -922,6 +922,10 @@ func checkRegistration(r *Report, p *Prog) {
 		acsReq := uniqStrings(apOf(ak.Ctx(mk), mk, "AuthnRequest", "AssertionConsumerServiceURL"))
 		r.Check(len(acsReq) == 1 && len(rcptWant) == 1 && acsReq[0] == rcptWant[0], rule, "the ACS URL sent in requests is the recipient the SP insists on", p.Pos(mk.Pos()), strings.Join(acsReq, ","), fmt.Sprintf("requests carry %v, the validator expects %v", acsReq, rcptWant))
 	}
+	// parsing the published metadata back does not rewrite endpoint locations
+	for _, nf := range sortedFns(p, endpointNormalisers(p)) {
+		checkNormaliserIdentity(r, p, nf, rule)
+	}
 	// a POST ACS endpoint at the expected location
 	okACS := false
 	var seen []string
